@@ -1420,12 +1420,12 @@ Definition rp_keys_ok (o : gopts) : Prop :=
   forall kk decl p g x, legal_key kk = true -> (o_fmap o kk decl = FmAlways p g \/ o_fmap o kk decl = FmMaybe p g) ->
     val_key_eqb (g x) (g x) = true.
 
-(* for every well-formed schema with fitting annotations, options, message type, draw tape and fuel >= rp_fuel:
+(* for every well-formed schema with fitting annotations, options, message type of the schema, draw tape and fuel >= rp_fuel:
    interpreting the canonical MessageGenerator and drawing once from the generator it returns IS RapidGen.gen — the same value,
    or the same Err / Panic outcome; the interpreter is never stuck and never out of fuel *)
 Definition rapidprog_stmt : Prop :=
   forall o sch ann, wf sch = true -> ann_ok sch ann = true -> rp_enums_ok sch ann -> rp_keys_ok o ->
-  forall mid extra tape,
+  forall mid extra tape, (mid < length sch)%nat ->
     rp_generate o sch ann canon_rapidproto (rp_fuel + extra) mid tape = Some (gen code_variant o sch ann mid tape).
 
 (* a program the decidable equality accepts IS the canonical one *)
